@@ -431,6 +431,12 @@ impl Profile {
                         out.push((s(nm.to_string(), &r, &w, 3, vec![]), false));
                     }
                 }
+                // names outside ASCII (multi-byte characters, with and without a separator)
+                for nm in ["syst\u{e8}me \u{e9}t\u{e9}", "\u{7269}\u{7406}"] {
+                    if !used.iter().any(|u| u == nm) {
+                        out.push((s(nm.to_string(), &[], &[], 3, vec![]), false));
+                    }
+                }
             }
             Profile::Ill => {
                 let names = named_before(prefix);
